@@ -459,7 +459,9 @@ class SMCSampler(MCMCSampler):
         if beta is None:
             beta = state.get("beta", 0.0)
         iteration = state.get("iteration", 0)
-        self.history = state.get("history", SMCHistory())
+        # Work on a copy: the run appends to the history, which must not grow
+        # the caller's checkpoint (it may be resumed from again)
+        self.history = copy.deepcopy(state.get("history", SMCHistory()))
         self._restored_min_step = state.get("min_step")
         rng_state = state.get("rng_state")
         if rng_state is not None and hasattr(self.rng, "bit_generator"):
